@@ -1,4 +1,4 @@
-"""./check <Cxx> [--tier quick|thorough] [--replay <path>] | setup | selftest | all"""
+"""./check <Cxx> [--tier quick|thorough] [--replay <path>] | setup | selftest | all | extras"""
 
 from __future__ import annotations
 
@@ -45,6 +45,14 @@ def main(argv=None) -> int:
             except ModuleNotFoundError:
                 continue
             rc = max(rc, run_check(p, a.tier, a.seed, mod.run))
+        return rc
+    if a.what.lower() == 'extras' or a.what.upper() in ('X01', 'X02'):
+        from .extras import EXTRAS
+
+        rc = 0
+        for xid, fn in EXTRAS.items():
+            if a.what.lower() == 'extras' or a.what.upper() == xid:
+                rc = max(rc, run_check(xid, a.tier, a.seed, fn, a.replay))
         return rc
     pid = a.what.upper()
     if pid not in PROPS:
